@@ -84,6 +84,8 @@ long wsim_child_write(int stream, const void *data, size_t n);
 // Reads what the parent sent to stdin: >0 bytes, 0 end-of-file, -1 nothing available yet.
 long wsim_child_read(void *buf, size_t n);
 void wsim_child_close(int stream);  // 0, 1 or 2
+// A program that tidies up after its parent: every inherited handle that is not one of its three streams goes.
+void wsim_child_close_extras(void);
 void wsim_child_exit(uint32_t code);
 int wsim_child_running(void);
 
